@@ -40,7 +40,8 @@ func c05Shapes(thorough bool) []c05Shape {
 		{1, 0, 0, 0}, // live at root
 		{1, 2, 0, 0}, // tombstone over live (branch A)
 		{0, 1, 1, 0}, // live on both branches: conflict at the merge
-		{0, 0, 1, 0}, // only on branch B
+		{0, 0, 1, 0}, // only on branch B (the later-created sibling)
+		{0, 1, 0, 0}, // only on branch A (the earlier-created sibling: its single entry has a smaller version id than B)
 		{1, 4, 0, 0}, // re-put after delete in A
 		{1, 1, 0, 0}, // overwritten in A
 		{0, 2, 0, 0}, // tombstone only
@@ -60,7 +61,7 @@ func c05Shapes(thorough bool) []c05Shape {
 		{1, 0, 0, 2},
 	}}
 	if !thorough {
-		diamond.patterns = diamond.patterns[:6]
+		diamond.patterns = diamond.patterns[:7]
 		chain.patterns = chain.patterns[:5]
 	}
 	return []c05Shape{diamond, chain}
